@@ -4,8 +4,7 @@ cd "$(dirname "$0")/.."
 for f in manifest.d/C*.json; do
   id=$(basename $f .json)
   s=$(date +%s)
-  out=$(./check $id --tier ${1:-quick} 2>&1 | tail -3)
-  rc=$?
+  out=$(./check $id --tier ${1:-quick} 2>&1); rc=$?; out=$(echo "$out" | tail -3)
   echo "$id rc=$rc $(( $(date +%s) - s ))s :: $(echo "$out" | tail -1)"
   echo "$out" | grep -E "VIOLATION|KNOWN-FINDING|CHECK-ERROR" 
 done
